@@ -74,7 +74,7 @@ class C11:
         n = 16
         per = 260 if tier == "quick" else 6000
         out = [dict(kind="single", index=i, n=per, timeout=420 if tier == "quick" else 3000) for i in range(8)]
-        out += [dict(kind="threads", index=20 + i, n=(36 if tier == "quick" else 1500), timeout=420 if tier == "quick" else 3000) for i in range(6)]
+        out += [dict(kind="threads", index=20 + i, n=(36 if tier == "quick" else 600), timeout=420 if tier == "quick" else 3000) for i in range(6)]
         out += [dict(kind="session", index=40 + i, n=(60 if tier == "quick" else 1500), timeout=420 if tier == "quick" else 3000) for i in range(2)]
         return out
 
@@ -474,7 +474,7 @@ class C11:
         if sh["index"] == 0:
             for prog in ("swap-default-valued", "swap-inside-overlay", "detype-cache-reset-during-return"):
                 self.run_case({"kind": "directed", "program": prog}, rec)
-        for i in range(sh["n"]):
+        for i in harness.budgeted(range(sh["n"]), rec):
             case = {"kind": sh["kind"], "seed": sh["seed"], "rseed": f"{sh['seed']}/C11/{sh['index']}/{i}"}
             if sh["kind"] == "threads":
                 case.update(threads=2 + (i % 3), programs=6)
